@@ -23,6 +23,8 @@ pub enum Op {
     /// `deep`: additionally evaluate the per-record decomposition oracle (C06)
     Search { s: usize, q: String, deep: bool },
     Prepare { s: usize, q: String, size: usize },
+    /// the same search `n` times in a row (wrap-around / idle-timeout style state needs many calls)
+    SearchBurst { s: usize, q: String, n: usize },
     // ---- perturbations of volatile state ---------------------------------------------------
     /// move the store to another long-lived sim-thread (it meets different thread-local scratch)
     Migrate { s: usize, t: usize },
@@ -47,6 +49,8 @@ pub enum Op {
     /// distance on the long-lived instance of thread `t`; classes: one letter per char (c v n a)
     Dist { t: usize, a: String, ca: String, b: String, cb: String },
     Jacc { t: usize, a: String, b: String },
+    /// `n` identical distance calls in a row on the long-lived instance
+    Burst { t: usize, a: String, ca: String, b: String, cb: String, n: usize },
     /// the library's own thread-local scratch through `word_match`
     WMatch { t: usize, r: String, q: String, fin: bool },
 }
@@ -61,6 +65,8 @@ impl Op {
             Op::SetMarkers { .. } => "markers",
             Op::Search { .. } => "search",
             Op::Prepare { .. } => "prepare",
+            Op::SearchBurst { .. } => "search_burst",
+            Op::Burst { .. } => "burst",
             Op::Migrate { .. } => "migrate",
             Op::FreshThread { .. } => "fresh_thread",
             Op::Pollute { .. } => "pollute",
@@ -88,6 +94,8 @@ impl Op {
             Op::SetMarkers { s, l, r } => json!({"op":"markers","s":s,"l":l,"r":r}),
             Op::Search { s, q, deep } => json!({"op":"search","s":s,"q":q,"deep":deep}),
             Op::Prepare { s, q, size } => json!({"op":"prepare","s":s,"q":q,"size":size}),
+            Op::SearchBurst { s, q, n } => json!({"op":"search_burst","s":s,"q":q,"n":n}),
+            Op::Burst { t, a, ca, b, cb, n } => json!({"op":"burst","t":t,"a":a,"ca":ca,"b":b,"cb":cb,"n":n}),
             Op::Migrate { s, t } => json!({"op":"migrate","s":s,"t":t}),
             Op::FreshThread { t } => json!({"op":"fresh_thread","t":t}),
             Op::Pollute { t, lang, titles, queries } => json!({"op":"pollute","t":t,"lang":lang,"titles":titles,"queries":queries}),
@@ -117,6 +125,8 @@ impl Op {
             "markers" => Op::SetMarkers { s: gu(o, "s")?, l: gs(o, "l")?, r: gs(o, "r")? },
             "search" => Op::Search { s: gu(o, "s")?, q: gs(o, "q")?, deep: o.get("deep").and_then(|x| x.as_bool()).unwrap_or(false) },
             "prepare" => Op::Prepare { s: gu(o, "s")?, q: gs(o, "q")?, size: gu(o, "size")? },
+            "search_burst" => Op::SearchBurst { s: gu(o, "s")?, q: gs(o, "q")?, n: gu(o, "n")? },
+            "burst" => Op::Burst { t: gu(o, "t")?, a: gs(o, "a")?, ca: gs(o, "ca")?, b: gs(o, "b")?, cb: gs(o, "cb")?, n: gu(o, "n")? },
             "migrate" => Op::Migrate { s: gu(o, "s")?, t: gu(o, "t")? },
             "fresh_thread" => Op::FreshThread { t: gu(o, "t")? },
             "pollute" => Op::Pollute { t: gu(o, "t")?, lang: gs(o, "lang")?, titles: gvs(o, "titles")?, queries: gvs(o, "queries")? },
